@@ -169,15 +169,25 @@ def _hex_text(h):
         return h
 
 
+TIE_NOTE_RENDER = (" Renderers (group render): append-style byte building (`buf = append(buf, x...)`, `buf = strconv.AppendXxx(buf, ..)`) is "
+                   "read as concatenation of contents (sharing of the backing array not represented); strconv.FormatUint/AppendUint(10, 16), "
+                   "FormatInt/AppendInt(10), AppendBool are READ as RenderNum.dec_u / hex_u / dec_s / bool_text, the printers the hand model "
+                   "uses (Translate/GoSemText.v); strconv.FormatFloat / AppendFloat(f, 'g' or 'f', -1, 64) have NO model: they are oracle "
+                   "parameters (bit pattern -> text) of the translated functions, as in the hand model (segments FloatG / FloatF), and the "
+                   "lemmas hold for every such function. The loops of Marshal / MarshalCompact / canjson.Marshal over an interface value "
+                   "(generated.Message) and encoding/json's struct encoder are NOT translated: hand model + correspondence run only.")
 translate_tie.describe(PROPERTIES, "C19", "(here: the pkg/descriptor functions the renderers call: Unmarshal*, UnmarshalPhysical, ToPhysical, "
                        "bounds, the can.Data accessors, and the lookups with loops UnmarshalValueDescription/ValueDescription, "
-                       "Database.Message/Node/Signal, Message.MultiplexerSignal)",
-                       translate_tie.TIE_NOTE_INT, translate_tie.TIE_NOTE_FLOAT, translate_tie.TIE_NOTE_LOOP)
+                       "Database.Message/Node/Signal, Message.MultiplexerSignal; AND THE RENDERERS THEMSELVES, group render: "
+                       "pkg/canjson/encode.go uintToJSON/intToJSON/floatToJSON, signal.setUnsignedValue/setSignedValue/setBoolValue/set = "
+                       "json_signal_value; pkg/cantext/encode.go AppendSignal = buf ++ render(text_signal), AppendSignalCompact = "
+                       "buf ++ render(text_compact_signal), AppendID, AppendSender, appendAttributeString)",
+                       translate_tie.TIE_NOTE_INT, translate_tie.TIE_NOTE_FLOAT, translate_tie.TIE_NOTE_LOOP, TIE_NOTE_RENDER)
 
 
 def run(res, replay=None):
     vlib.proof_stage(res)
-    translate_tie.run_tie(res, ["descriptor", "physical", "lookup"])
+    translate_tie.run_tie(res, ["descriptor", "physical", "lookup", "render"])
     quick = res.tier == "quick"
     count = 12 if quick else 60
     states, pages, keep = (10, 24, 4) if quick else (300, 400, 40)
